@@ -22,6 +22,8 @@ def run(spec, tier, seed, replay=None):
     targets = list(spec.get("props", []))
     if gen_ok:
         targets += spec.get("tie", [])
+    elif spec.get("props_need_gen"):
+        targets = [t for t in targets if t not in spec["props_need_gen"]]
     ok, out = V.coq_build(targets)
     coq_out = out
     if not ok:
@@ -86,6 +88,19 @@ def run(spec, tier, seed, replay=None):
                 impl_violations.append(v)
             all_case_files += summ.get("files", [])
             notes += ["%s/%s: %s" % (drv["driver"], profile, n) for n in summ.get("notes", [])]
+    # ---------------------------------------------------------------- property-specific extra step (e.g. loom litmus suite, rustc probes)
+    if spec.get("custom"):
+        try:
+            res = spec["custom"](tier, seed)
+        except Exception as ex:
+            res = {"broken": [{"kind": "custom-step", "excerpt": repr(ex)}]}
+        for v in res.get("violations", []):
+            impl_violations.append(v)
+        broken_corr += res.get("broken", [])
+        evaluations += res.get("evaluations", 0)
+        nontrivial += res.get("distinct_nontrivial", 0)
+        samples += res.get("samples", [])
+        notes += res.get("notes", [])
     # ---------------------------------------------------------------- model vs implementation
     mismatches = []
     if all_case_files:
